@@ -411,11 +411,6 @@ def fteik3d(slow, dz, dx, dy, zsrc, xsrc, ysrc, nsweep=2, grad=False):
     xsa = xsrc / dx
     ysa = ysrc / dy
 
-    # Try to handle edges simply for source due to precision
-    zsa = zsa - eps if zsa >= nz else zsa
-    xsa = xsa - eps if xsa >= nx else xsa
-    ysa = ysa - eps if ysa >= ny else ysa
-
     # Grid points to initialize source
     zsi = min(int(zsa), nz - 1)
     xsi = min(int(xsa), nx - 1)
